@@ -479,12 +479,36 @@ func (c *Ctx) fontBBoxRulesSSA() {
 					}
 					retCell := ""
 					var notes []string
+					// the glyphs may also be visited through a list of their names (sorted, so that the
+					// order is fixed): the comparison of the list's index — a loop variable — with the
+					// length of the list is the loop's condition: taken as "one more glyph" in the
+					// iteration cells, as "no more glyphs" after the last one
+					ev.oracle = func(op token.Token, x, y sv) (bool, bool) {
+						if !inLoop || !(strings.Contains(x.String(), "v:") || strings.Contains(y.String(), "v:")) {
+							return false, false
+						}
+						more := false
+						switch op {
+						case token.LSS, token.LEQ, token.NEQ:
+							more = true
+						case token.GTR, token.GEQ, token.EQL:
+						default:
+							return false, false
+						}
+						if atExit {
+							more = !more
+						}
+						return more, true
+					}
 					ev.call = func(call ssa.CallInstruction, args []sv) (sv, bool) {
 						if call == nil && len(args) > 0 && args[0].s == "next" {
 							if atExit {
 								return sv{k: svTuple, tup: []sv{boolV(false), sv{k: svNil}, sv{k: svNil}}}, true
 							}
 							return sv{k: svTuple, tup: []sv{boolV(true), symV("name"), sv{k: svAddr, s: "glyph"}}}, true
+						}
+						if call == nil {
+							return sv{}, false
 						}
 						n := callName(call)
 						callee := call.Common().StaticCallee()
